@@ -279,7 +279,8 @@ int stub_rtr_sync(struct rtr_socket *s)
 		return RTR_SUCCESS;
 	}
 	/* failures: serial untouched; session only (re)written while none is established */
-	s->is_resetting = false;
+	if (ND_BOOL("sync.reload_flag_cleared"))
+		s->is_resetting = false;
 	if (s->request_session_id && ND_BOOL("sync.cr_seen"))
 		s->session_id = ND(uint16_t, "sync.session");
 	if (ND_BOOL("sync.purged")) { /* undo impossible: everything of this cache removed, Reset Query next */
